@@ -348,6 +348,11 @@ class LinearPolynomial(BaseDeferred):
             ready = False
             with try_compute:
                 key = key.wait()
+                # A definition may be a chain of aliases ('a = b', 'b = label'):
+                # follow it down to the polynomial or number at its end, whose
+                # terms are what has to meet the other terms
+                while isinstance(key, Deferred) and not key.is_awaiting:
+                    key = key.wait()
                 ready = True
             if not ready:
                 # If this is itself part of an attempt, it has failed; trying
